@@ -3,9 +3,9 @@
    [valid] is any invariant of dates preserved by the step and [f] what the step computes on valid dates
    (both discharged by the core development: succ/pred of a canonical date).
    [oiter f n o] = f applied n times to o, stopping at None. *)
-From JV Require Import Sem Gen.
+From JV Require Import Sem Gen Spec SpecX.
 From JV.Hand Require Import Iter.
-From JV.Proofs Require Import IterProofs.
+From JV.Proofs Require Import IterProofs IterCore.
 Import List ListNotations.
 Open Scope Z_scope.
 
@@ -72,3 +72,25 @@ Example C10_earlier_nonvacuous :
   ex_valid_e (ex_first 1) /\
   earlier_take 3 (ex_first 1) = Ret [Some (ex_first 0); None; None].
 Proof. exact ex_earlier_hyps. Qed.
+
+(* The same four statements with the hypotheses discharged by the core development (succ_ok / pred_ok): for EVERY
+   calendar a user can hold, EVERY 32-bit start day and EVERY number n of items taken, the i-th item is the
+   calendar's date for day j+1+i (later), j+i (and_later), j-1-i (earlier), j-i (and_earlier) as long as that is a
+   32-bit day number, and None from then on.  [date_of c j] is the value Calendar::at_jdn returns (C01);
+   [day_or_none c j] = Some (date_of c j) if -2^31 <= j < 2^31, None otherwise. *)
+Theorem C10_iterators_all : forall c j n, ValidCal c -> in_i32 j ->
+  later_take n (date_of c j) = Ret (map (fun i => day_or_none c (j + 1 + Z.of_nat i)) (seq 0 n)) /\
+  and_later_take n (date_of c j) = Ret (map (fun i => day_or_none c (j + Z.of_nat i)) (seq 0 n)) /\
+  earlier_take n (date_of c j) = Ret (map (fun i => day_or_none c (j - 1 - Z.of_nat i)) (seq 0 n)) /\
+  and_earlier_take n (date_of c j) = Ret (map (fun i => day_or_none c (j - Z.of_nat i)) (seq 0 n)).
+Proof.
+  intros c j n V H.
+  exact (conj (later_closed c V j n H) (conj (and_later_closed c V j n H) (conj (earlier_closed c V j n H) (and_earlier_closed c V j n H)))).
+Qed.
+Print Assumptions C10_iterators_all.
+
+(* across the 1582 gap: 4 October is followed by 15 October; and the end of the range *)
+Example C10_iterators_all_ex :
+  (exists l, later_take 2 (date_of (CR 2299161) 2299159) = Ret l /\ map (option_map Date_f_day) l = [Some 4; Some 15]) /\
+  day_or_none CG 2147483648 = None /\ day_or_none CJ (-2147483649) = None.
+Proof. split; [eexists; split; vm_compute; reflexivity|split; reflexivity]. Qed.
